@@ -118,20 +118,24 @@ PROPS = {
         "assumptions": ["serde_json: parsing what was printed yields a cookie with the same content (used only by lemma_c10_reaccept)"],
     },
     "C14": {
-        "units": ["U9", "U4", "U3"],
+        "units": ["U9", "U11", "U4", "U3"],
         "level": "proof",
         "witness": [(r"max_packet_length|listen|handle", "limits")],
         "sweep": ["limits"],
-        "explanation": "Listener::handle is extracted whole (spawned task inlined, R14) and verified for rigid but arbitrary operator constants: the call of "
+        "explanation": "U11: src/lib.rs start() is extracted whole and verified with the rigid constants *defined* as the fields of its Config argument: the call "
+                       "listener.listen(..) carries the obligations that the built Listener holds exactly the configured timeout, maximum frame length, cookie expiry and secret "
+                       "(and, for C15, the configured limiter parameters and PROXY settings); Listener::listen (the accept loop) keeps them as loop invariants and calls handle under them. "
+                       "Listener::handle is extracted whole (spawned task inlined, R14) and verified for rigid but arbitrary operator constants: the call of "
                        "Connection::listen carries the obligations max_packet_length == cfg, auth_cookie_expiry == cfg, auth_secret == cfg, and "
                        "tokio::time::timeout must be called with the configured duration; the Connection/Listener builders are verified setters. That "
                        "the limits then act is U4 (length <= 0 or > max_packet_length => Err before the body is read) and U3 (cookie_accept uses cfg.expiry and cfg.secret).",
         "not_covered": ["the deadline itself (tokio::time::timeout is trusted to end the task after the given duration)",
-                        "src/lib.rs start(): that the Config fields reach the Listener builders (DynAdapter/from_config code outside the extractable subset)"],
+                        "max_packet_length above 2^31-1 (src/lib.rs casts the u64 setting with `as i32`: the effective limit is the truncated value; start() is verified under config.max_packet_length <= i32::MAX)",
+                        "parsing of the configuration file / environment into Config (the `config` crate)"],
         "assumptions": ["spawned connection task inlined (R14): concurrency of connections erased"],
     },
     "C15": {
-        "units": ["U9", "U4", "U3"],
+        "units": ["U9", "U11", "U4", "U3"],
         "level": "proof",
         "witness": [],
         "sweep": [],
